@@ -17,7 +17,8 @@ COQ = os.path.join(VERIF, 'coq')
 sys.path.insert(0, os.path.join(VERIF, 'tools'))
 from props import PROPS, COMMON_TRUSTED
 
-ENV = dict(os.environ, OCAMLRUNPARAM='s=4M', PYTHONHASHSEED='0', PYTHONPATH='/repo', PIP_NO_INDEX='1')
+REPO = os.environ.get('VERIF_REPO', '/repo')     # VERIF_REPO: maintainer testing against a scratch copy only
+ENV = dict(os.environ, OCAMLRUNPARAM='s=4M', PYTHONHASHSEED='0', PYTHONPATH=REPO, PIP_NO_INDEX='1', VERIF_REPO=REPO)
 FORBIDDEN = r'\b(Admitted|admit|Axiom|Axioms|Parameter|Parameters|Conjecture|Conjectures|Admit Obligations|' \
             r'bypass_check|Unset Guard Checking|Unset Positivity Checking|Unset Universe Checking|' \
             r'type-in-type|impredicative-set|native_compute)\b'
@@ -53,7 +54,7 @@ def build(log):
     with open(os.path.join(VERIF, 'build', '.lock'), 'w') as lk:
         fcntl.flock(lk, fcntl.LOCK_EX)
         t = time.time()
-        rc, out = sh('python3 tools/gen.py --repo /repo')
+        rc, out = sh(f'python3 tools/gen.py --repo {REPO}')
         log.append(out)
         res['gen_rc'] = rc
         st = json.load(open(os.path.join(COQ, 'Gen', 'STATUS.json')))
